@@ -474,6 +474,16 @@ class Renderer:
             return self.p2()
         if kind == "T":
             return self.terminator()
+        if kind == "PE":
+            # a plain statement that is a with-block / inline context around a flow-ending plain op: inside a context the op does not
+            # end the flow of the routine, the block it stands in goes on behind it
+            n = self.num()
+            hdr = A.CtxHeader(("actor", "object", "performer")[n % 3], I(n) if n % 2 else C(f"CTX_{n}"))
+            # (Destroy only: `JumpCommon` always leaves the routine for the decompiler's graph builder, with or without a context)
+            inner = A.Op("Destroy", ())
+            if (n // 4) % 2:
+                return A.Op(inner.name, inner.args, hdr)
+            return A.With(hdr, inner)
         if kind == "lab":
             return A.Label(s[1], self.turn("para", 5) == 4)
         if kind == "jump":
@@ -1168,6 +1178,19 @@ def flat_space(tier: str, seed: int = 0) -> list:
         )
 
     fams.append(Family("flat-or-counts", Lit(*_or_count_blocks(*t["or_counts"])), no_cross))
+    # blocks whose ONLY statement is a context around the flow-ending plain op Destroy, in every position of a chain
+    PE, Q = ("PE",), ("P1",)
+    ending = []
+    for neg in (False, True):
+        ending += [
+            (("if", ((neg, 1, (PE,)), (False, 1, (Q,))), None), Q) + _T,
+            (("if", ((neg, 1, (PE,)),), (Q,)), Q) + _T,
+            (("if", ((neg, 1, (Q,)), (False, 1, (PE,))), (Q,)), Q) + _T,
+            (("if", ((neg, 2, (PE,)), (neg, 1, (PE,))), (PE,)), Q) + _T,
+            (Q, ("if", ((neg, 1, (Q, PE)), (False, 1, (PE, Q))), None)) + _T,
+            (("switch", ((False, (PE, ("break",))), (False, (Q, ("break",))), (True, (PE, ("break",))))), Q) + _T,
+        ]
+    fams.append(Family("flat-context-around-ending-op", Lit(*ending), no_cross))
     # seeded random flat programs
     n_random = t["random"]
     fams.append(
